@@ -18,7 +18,7 @@ write (C03 `patched_field_designates`, C17) this is the frame argument for reloc
 "after relocate B every entry's field designates its target" (the fold over the entry list with these disjointness facts, incl.
 the address-table section); that composition is evaluated by the monitor on every explored program x base.
 -/
-import AsmjitVerif.Lemmas.RelSlots
+import AsmjitVerif.Lemmas.TabInv
 import AsmjitVerif.Props.C04
 import AsmjitVerif.Props.C03E
 namespace AsmjitVerif.CodeHolder
@@ -184,20 +184,36 @@ theorem reloc_rel_correct (arch : Arch) (base0 : BitVec 64) (ops : List Op) (hop
     congr 1
     ac_rfl
 
+/-- **address-table state invariants over programs.** After any program of assembling operations followed by `flatten; resolve`:
+the `.addrtab` section id (if the table exists) is a valid section index, and no table entry has a slot assigned
+(`add_address_to_address_table` creates entries without one; only `relocate_to_base` assigns slots). -/
+theorem addr_table_ready (arch : Arch) (base0 : BitVec 64) (ops : List Op) (hops : ∀ op ∈ ops, op.early = true) :
+    TabIn (run (State.init arch base0) (ops ++ [.flatten, .resolve])) ∧ TabNone (run (State.init arch base0) (ops ++ [.flatten, .resolve])) := by
+  obtain ⟨hi0, hn0⟩ := inv_tabs_init arch base0
+  obtain ⟨hi, hn⟩ := run_tabs _ ops hops (inv_init arch base0) hi0 hn0
+  have hinv := refs_invariant arch base0 ops hops
+  have hinv1 := step_inv _ .flatten rfl hinv
+  have e : run (State.init arch base0) (ops ++ [.flatten, .resolve]) = (resolve (step (run (State.init arch base0) ops) .flatten).1).1 := by
+    rw [run_append]; simp [run, step]
+  rw [e]
+  constructor
+  · exact tabIn_grow (tabIn_grow hi (step_grow _ .flatten rfl hinv)) (grow_resolve _ hinv1)
+  · have h1 := step_tabNone _ .flatten (fun _ => trivial) (fun b e => by cases e) hn
+    have h2 := step_tabNone _ .resolve (fun _ => trivial) (fun b e => by cases e) h1
+    simpa [step] using h2
+
 /-- **the address-table form, end to end.** For every program of the menu followed by `flatten; resolve` in 64-bit mode and every
 base `B`: if `relocate_to_base(B)` returns kOk then every X64AddressEntry whose target no rel32 reaches has become
 `FF /2` / `FF /4 [rip + rel32]`, that rel32 reaches slot `k` of the address table (`addr_table_slot_reached` turns the decoded value
 into the run-time address `B + table offset + 8k`), and slot `k` lies inside the table's final buffer and holds the target - to the
 end of the fold: slots are assigned once, never collide, later iterations write other slots or the same value
 (`Lemmas/RelSlots.lean`: `SlotInv`, `relocLoop_slots`).
-Hypotheses on the state before the call, not yet discharged over programs: the `.addrtab` section id is a valid section
-(`hin`) and no table entry has a slot yet (`hnone`; `add_address_to_address_table` creates entries without one). -/
+The two facts about the state before the call - the `.addrtab` id is a valid section, no entry has a slot yet - are the
+invariant `addr_table_ready` of every program. -/
 theorem reloc_table_correct (arch : Arch) (base0 : BitVec 64) (ops : List Op) (hops : ∀ op ∈ ops, op.early = true)
     (B : BitVec 64) (s' : State) (n : Nat) (ats : Nat)
     (h8 : (run (State.init arch base0) (ops ++ [.flatten, .resolve])).arch.regSize = 8)
     (hats : (run (State.init arch base0) (ops ++ [.flatten, .resolve])).addrTabSec = some ats)
-    (hin : ∃ t0, (run (State.init arch base0) (ops ++ [.flatten, .resolve])).secs[ats]? = some t0)
-    (hnone : ∀ e ∈ (run (State.init arch base0) (ops ++ [.flatten, .resolve])).addrTab, e.slot = none)
     (h : relocate (run (State.init arch base0) (ops ++ [.flatten, .resolve])) B = (s', .ok, n)) :
     let s := run (State.init arch base0) (ops ++ [.flatten, .resolve])
     ∀ re ∈ s.relocs, re.type = .x64AddressEntry → relocValue { s with base := B } B s.secs re = none →
@@ -210,7 +226,11 @@ theorem reloc_table_correct (arch : Arch) (base0 : BitVec 64) (ops : List Op) (h
         RDecodes s'.secs re.rgn (secOffset s.secs ats + BitVec.ofNat 64 (k * 8) -
           (secOffset s.secs re.srcSec + BitVec.ofNat 64 re.srcOff + BitVec.ofNat 64 re.regionSize)) ∧
         s'.secs[ats]? = some tF ∧ k * 8 + 8 ≤ tF.buf.length ∧ loadLE tF.buf (k * 8) 8 = some re.payload.toNat :=
-  relocate_table_spec _ (relocs_own_their_regions_final arch base0 ops hops) B s' n ats h8 hats hin hnone h
+  relocate_table_spec _ (relocs_own_their_regions_final arch base0 ops hops) B s' n ats h8 hats
+    (by
+      have hlt := (addr_table_ready arch base0 ops hops).1 ats hats
+      exact ⟨_, List.getElem?_eq_getElem hlt⟩)
+    (addr_table_ready arch base0 ops hops).2 h
 
 /-- the hypotheses of `reloc_table_correct` are met by a concrete program (x86-64 `call 0x123456789abc` far out of reach),
 and relocation to 0x10000 succeeds -/
